@@ -1246,6 +1246,60 @@ fn fixed_cases(run: &mut Run) {
     }
 }
 
+/// layer sequences on top of units.toml whose steps are fine alone: (keys that must resolve, the unit each names by
+/// one of its bundled keys)
+const LAYER_SEQUENCES: &[(&[&str], &[(&str, &str)])] = &[
+    // an alias for an SI-expanded unit, then an edit of its base unit (which regenerates the expanded units)
+    (&["[extend.units]\nkg = { aliases = [\"kilo\"] }\n", "[extend.units]\ng = { aliases = [\"gr\"] }\n"], &[("kilo", "kg"), ("gr", "g"), ("kilogram", "kg"), ("mg", "milligram")]),
+    (&["[extend.units]\nml = { aliases = [\"mil\", \"mils\"] }\ndl = { aliases = [\"deci\"] }\n", "[extend.units]\nl = { names = [\"litro\"], ratio = 1 }\n"], &[("mil", "ml"), ("mils", "ml"), ("deci", "dl"), ("litro", "l"), ("kl", "kiloliter")]),
+    (&["[extend.units]\ncm = { aliases = [\"centi\"] }\n", "[extend]\nprecedence = \"after\"\n[extend.units]\nm = { symbols = [\"mt\"] }\n", "[extend.units]\nkm = { aliases = [\"kilom\"] }\n"], &[("centi", "cm"), ("mt", "m"), ("kilom", "km"), ("mm", "millimeter")]),
+];
+
+fn layer_sequences(run: &mut Run) {
+    let mut st = Stats::default();
+    let mut fail = None;
+    'outer: for (layers, expect) in LAYER_SEQUENCES {
+        st.eval();
+        st.nontrivial(&layers.concat());
+        let built = guard(|| {
+            let mut b = ConverterBuilder::new().with_units_file(UnitsFile::bundled()).map_err(|e| e.to_string())?;
+            for l in *layers {
+                let f: UnitsFile = toml::from_str(l).map_err(|e| format!("layer is not well typed: {e}"))?;
+                b = b.with_units_file(f).map_err(|e| e.to_string())?;
+            }
+            b.finish().map_err(|e| e.to_string())
+        });
+        let conv = match built {
+            Err(p) => {
+                fail = Some(Violation::new("c16.panic.finish", format!("building panicked: {p}; layers {layers:?}")));
+                break;
+            }
+            Ok(Err(e)) => {
+                fail = Some(Violation::new("c16.valid-stack-rejected", format!("units.toml + {layers:?} is rejected: {e}")));
+                break;
+            }
+            Ok(Ok(c)) => c,
+        };
+        for (key, same_as) in *expect {
+            let (a, b) = (conv.find_unit(key), conv.find_unit(same_as));
+            let same = matches!((&a, &b), (Some(a), Some(b)) if std::sync::Arc::ptr_eq(a, b));
+            if !same {
+                fail = Some(Violation::new("c16.key-resolves-to-other-unit", format!("after the layers {layers:?} the key `{key}` resolves to {:?}, it was declared for the unit of `{same_as}` ({:?})", a.map(|u| u.to_string()), b.map(|u| u.to_string()))));
+                break 'outer;
+            }
+        }
+        if let Err(v) = generic_consistency(&conv) {
+            fail = Some(v);
+            break;
+        }
+    }
+    st.sample(|| json!(LAYER_SEQUENCES[0].0));
+    run.add_part("layer-sequences", "3 fixed sequences of extend layers on units.toml in which an alias is given to an SI-expanded unit and a later layer edits its base unit: every declared key must resolve to its unit and the converter must pass the generic consistency checks; every sequence is non-trivial", st, true);
+    if let Some(v) = fail {
+        run.fail("layer-sequences", v, json!("fixed"));
+    }
+}
+
 pub fn run(tier: Tier) -> i32 {
     let mut run = Run::new("C16", tier);
     run.assume("units files are written as TOML and deserialized with the crate's own serde model (the documented input path); files the deserializer rejects are counted as excluded");
@@ -1253,6 +1307,9 @@ pub fn run(tier: Tier) -> i32 {
     run.replay_regressions(&|_p, j| oracle(&case_from::<Case>(j)?.files, &mut Stats::default()));
     if !run.failed() {
         fixed_cases(&mut run);
+    }
+    if !run.failed() {
+        layer_sequences(&mut run);
     }
     if !run.failed() {
         run_prop(
